@@ -2019,9 +2019,18 @@ struct Round {
 /// opened by the leader's `wcq.lead`, its members are the owners of the slots of its
 /// `wcq.deliver`s, its system call the `probe.issue` / `probe.ret` the leader emits in between.
 fn fsync_rounds(ev: &[Event]) -> Result<Vec<Round>, String> {
+    // A waiter logs its `wcq.link` after it has linked: a leader can batch it and log the hand-out
+    // to its slot before the waiter's own line is in the log (seen once, on a loaded machine, as
+    // "hand-out to slot N that nobody is known to hold").  The owners of the slots are therefore
+    // collected in a first pass over the whole log, and the rounds built in a second.
+    let mut owners = std::collections::HashMap::new();
+    let _ = fsync_rounds_pass(ev, &mut owners, false);
+    fsync_rounds_pass(ev, &mut owners, true)
+}
+
+fn fsync_rounds_pass(ev: &[Event], slot_owner: &mut std::collections::HashMap<u64, (usize, usize, u8)>, strict: bool) -> Result<Vec<Round>, String> {
     use std::collections::HashMap;
     let mut cur: HashMap<u64, ((usize, usize, u8), u32)> = HashMap::new();
-    let mut slot_owner: HashMap<u64, (usize, usize, u8)> = HashMap::new();
     let mut open: HashMap<u64, (Round, usize)> = HashMap::new();
     let mut rounds = vec![];
     let mut durable = 0u64;
@@ -2039,6 +2048,7 @@ fn fsync_rounds(ev: &[Event]) -> Result<Vec<Round>, String> {
             "probe.issue" => {
                 match open.get_mut(&th) {
                     Some(r) => r.0.call = Some((a[0], a[1], false)),
+                    None if !strict => {}
                     None => return Err(format!("fdatasync number {} outside a round of the fsync queue", a[0])),
                 }
                 continue;
@@ -2065,6 +2075,12 @@ fn fsync_rounds(ev: &[Event]) -> Result<Vec<Round>, String> {
         if !fsync_queue {
             continue;
         }
+        if !strict {
+            if tag == "wcq.link" {
+                slot_owner.insert(a[0], st.0);
+            }
+            continue;
+        }
         match tag {
             "wcq.link" => {
                 slot_owner.insert(a[0], st.0);
@@ -2076,6 +2092,7 @@ fn fsync_rounds(ev: &[Event]) -> Result<Vec<Round>, String> {
                 let owner = slot_owner.get(&a[1]).copied();
                 match (open.get_mut(&th), owner) {
                     (Some(r), Some(o)) => r.0.members.push(o),
+                    _ if !strict => {}
                     _ => return Err(format!("hand-out to slot {} that nobody is known to hold", a[1])),
                 }
             }
@@ -2091,7 +2108,7 @@ fn fsync_rounds(ev: &[Event]) -> Result<Vec<Round>, String> {
             _ => {}
         }
     }
-    if !open.is_empty() {
+    if strict && !open.is_empty() {
         return Err("a round of the fsync queue never finished".into());
     }
     Ok(rounds)
